@@ -15,6 +15,10 @@
  * same thing.  Every access through the cursor is bounds/pointer-checked by CBMC as gp_line[off]. */
 #include "verif.h"
 #include "constants.h"
+#ifdef CAP            /* quick tier / small-scope search only: a smaller line buffer (the loop proofs are inductive) */
+#undef SPX_SET_MAX_LINE_LEN
+#define SPX_SET_MAX_LINE_LEN (CAP + 1)
+#endif
 
 #define SPX_MSG_INFO1(spxout, x)
 #define SPX_MSG_WARNING(spxout, x)
@@ -34,6 +38,7 @@ extern "C" {
    extern int g_stoi_ret; extern double g_stod_ret; extern unsigned long g_stoul_ret; extern long g_strtol4, g_strtol5;
    extern int g_conv_ok, g_setter_ret;
    extern int g_slack;
+   void token_clean(int off);                          /* contract.c: the token at this offset is properly terminated */
 }
 
 /* ---- C string functions on literals: loop-free, read a[i] only while the C function would ---------------- */
@@ -78,6 +83,7 @@ static inline long strtol(const char* s, char** end, int base)
    __CPROVER_assert(end == nullptr && (base == 4 || base == 5), "strtol stub: only the calls of the slice");
    g_ncalls = 1;
    g_pvoff = (int)(s - gp_line);
+   token_clean(g_pvoff);
    return base == 4 ? g_strtol4 : g_strtol5;
 }
 
@@ -91,19 +97,19 @@ namespace std
 {
 static inline int stoi(const char* s)
 {
-   CSTRING_ARG(s); g_ncalls = 1; g_pvoff = (int)(s - gp_line);
+   CSTRING_ARG(s); g_ncalls = 1; g_pvoff = (int)(s - gp_line); token_clean(g_pvoff);
    if(!g_conv_ok) CONV_THROW("std::stoi")
    return g_stoi_ret;
 }
 static inline double stod(const char* s)
 {
-   CSTRING_ARG(s); g_ncalls = 1; g_pvoff = (int)(s - gp_line);
+   CSTRING_ARG(s); g_ncalls = 1; g_pvoff = (int)(s - gp_line); token_clean(g_pvoff);
    if(!g_conv_ok) CONV_THROW("std::stod")
    return g_stod_ret;
 }
 static inline unsigned long stoul(const char* s)
 {
-   CSTRING_ARG(s); g_ncalls = 1; g_pvoff = (int)(s - gp_line);
+   CSTRING_ARG(s); g_ncalls = 1; g_pvoff = (int)(s - gp_line); token_clean(g_pvoff);
    if(!g_conv_ok) CONV_THROW("std::stoul")
    return g_stoul_ret;
 }
@@ -139,6 +145,7 @@ static inline int strncmp(const char* a, NameRef b, size_t n)
    __CPROVER_assert(n == SPX_SET_MAX_LINE_LEN, "name compare uses SPX_SET_MAX_LINE_LEN");
    g_ncalls = 1;
    g_pnoff = (int)(a - gp_line);
+   token_clean(g_pnoff);
    const unsigned char* m = b.kind == 0 ? gp_mb : (b.kind == 1 ? gp_mi : gp_mr);
    return m[b.idx] ? 0 : 1;
 }
